@@ -4164,8 +4164,21 @@ coap_dispatch(coap_context_t *context, coap_session_t *session,
     goto cleanup;
 
   case COAP_MESSAGE_NON:
-    /* find transaction in sendqueue in case large response */
-    coap_remove_from_queue(&context->sendqueue, session, pdu->mid, &sent);
+    /* find transaction in sendqueue in case large response.
+     * A queued Confirmable is never matched here: the message id of a
+     * received Non-confirmable is taken from the peer's id space, and
+     * removing the entry would neither release its NSTART slot nor report
+     * a NACK (a response to it is matched by token in handle_response()). */
+    {
+      coap_queue_t *q;
+
+      LL_FOREACH(context->sendqueue, q) {
+        if (q->session == session && q->id == pdu->mid)
+          break;
+      }
+      if (q && q->pdu->type != COAP_MESSAGE_CON)
+        coap_remove_from_queue(&context->sendqueue, session, pdu->mid, &sent);
+    }
     /* check for unknown critical options */
     if (coap_option_check_critical(session, pdu, &opt_filter) == 0) {
       packet_is_bad = 1;
